@@ -9,6 +9,7 @@ import (
 	"context"
 	"encoding/gob"
 	"fmt"
+	"hash/crc32"
 	"io"
 	"io/ioutil"
 	"math/rand"
@@ -1441,6 +1442,11 @@ func (r *retryReader) Read(data []byte) (int, error) {
 			r.bytes += int64(n)
 			return n, err
 		}
+		if _, ok := err.(staleReadError); ok {
+			// Reopening can never succeed.
+			r.err = err
+			return 0, err
+		}
 		// Here, we blindly retry regardless of error kind/severity.
 		// This allows us to retry on errors such as aws-sdk or io.UnexpectedEOF.
 		// The subsequent call to Worker.Read will detect any permanent
@@ -1549,6 +1555,14 @@ func newMachineReader(machine *bigmachine.Machine, taskPartition taskPartition) 
 // evalOpenerAt is an openerAt that opens a reader for a task partition, first
 // evaluating the task to ensure that it is available. It is used for fault
 // tolerance of post-evaluation reads.
+//
+// If the task's output was lost after some of it had already been read, the
+// evaluation recomputes it, and the new output is not necessarily
+// byte-for-byte the same as the one partially read (e.g. row order out of a
+// shuffle is not deterministic). evalOpenerAt keeps a running checksum of the
+// bytes it has handed out so that a read resumed against a recomputed output
+// can verify that those bytes are a prefix of the new output; if they are not,
+// resuming would silently duplicate and drop rows, so the read fails instead.
 type evalOpenerAt struct {
 	// Executor is the executor used to execute the task before opening the
 	// reader.
@@ -1561,6 +1575,15 @@ type evalOpenerAt struct {
 	// machine is the machine used by the last attempt to open a reader,
 	// post-successful evaluation.
 	machine *bigmachine.Machine
+	// n and sum are the number and the running checksum of the bytes
+	// (starting at offset 0) read so far through readers returned by OpenAt.
+	n   int64
+	sum uint32
+	// src is the machine whose copy of the output those bytes are known to
+	// be a prefix of. stale is set when the output may have been recomputed
+	// since; it is cleared only once the prefix has been verified again.
+	src   *bigmachine.Machine
+	stale bool
 }
 
 // OpenAt implements openerAt.
@@ -1568,15 +1591,79 @@ func (e *evalOpenerAt) OpenAt(ctx context.Context, offset int64) (io.ReadCloser,
 	// Evaluate the task, so that results are available for reading. This
 	// provides some fault tolerance when machines are lost after evaluation
 	// is complete (e.g. during final result scanning).
+	if e.Task.State() != TaskOk {
+		e.stale = true
+	}
 	err := Eval(ctx, e.Executor, []*Task{e.Task}, nil)
 	if err != nil {
 		return nil, err
 	}
 	e.machine = e.Executor.location(e.Task).Machine
+	if e.machine != e.src {
+		e.stale = true
+	}
+	if offset == 0 || !e.stale {
+		var r io.ReadCloser
+		err = e.machine.RetryCall(ctx,
+			"Worker.Read", readRequest{e.Task.Name, e.Partition, offset}, &r)
+		if err != nil {
+			return nil, err
+		}
+		if offset == 0 {
+			e.n, e.sum, e.src, e.stale = 0, 0, e.machine, false
+		}
+		return &evalReadCloser{r, e}, nil
+	}
+	// We are resuming a read of an output that may have been recomputed since
+	// we read its first offset bytes: verify that they are a prefix of the
+	// current output.
+	if offset != e.n {
+		return nil, staleReadError{errors.E(errors.Fatal, fmt.Sprintf(
+			"cannot resume read of recomputed %s:%d at offset %d", e.Task.Name, e.Partition, offset))}
+	}
 	var r io.ReadCloser
 	err = e.machine.RetryCall(ctx,
-		"Worker.Read", readRequest{e.Task.Name, e.Partition, offset}, &r)
-	return r, err
+		"Worker.Read", readRequest{e.Task.Name, e.Partition, 0}, &r)
+	if err != nil {
+		return nil, err
+	}
+	h := crc32.NewIEEE()
+	if _, err = io.CopyN(h, r, offset); err != nil {
+		_ = r.Close()
+		if err == io.EOF {
+			err = staleReadError{errors.E(errors.Fatal, fmt.Sprintf(
+				"%s:%d was recomputed and is shorter than the %d bytes already read: cannot resume reading", e.Task.Name, e.Partition, offset))}
+		}
+		return nil, err
+	}
+	if h.Sum32() != e.sum {
+		_ = r.Close()
+		return nil, staleReadError{errors.E(errors.Fatal, fmt.Sprintf(
+			"%s:%d was recomputed after %d bytes of it were read and its output differs: cannot resume reading", e.Task.Name, e.Partition, offset))}
+	}
+	e.src, e.stale = e.machine, false
+	return &evalReadCloser{r, e}, nil
+}
+
+// staleReadError is returned by evalOpenerAt.OpenAt when a partially read
+// output has been replaced by a different one, so that the read can not be
+// resumed, however often it is retried.
+type staleReadError struct{ error }
+
+// evalReadCloser accounts, in its evalOpenerAt, for the bytes read through
+// it. As in retryReader, only reads that succeed (or end the stream) count.
+type evalReadCloser struct {
+	io.ReadCloser
+	e *evalOpenerAt
+}
+
+func (r *evalReadCloser) Read(p []byte) (int, error) {
+	n, err := r.ReadCloser.Read(p)
+	if err == nil || err == io.EOF {
+		r.e.n += int64(n)
+		r.e.sum = crc32.Update(r.e.sum, crc32.IEEETable, p[:n])
+	}
+	return n, err
 }
 
 func (e evalOpenerAt) String() string {
